@@ -193,9 +193,9 @@ class _ReadSourceGenerator:
             if not issubclass(base_type, SUPPORTED_TYPES):
                 # Arrays are supported, but only of types the generated code knows how to read
                 raise TypeError(f"Unsupported type for compiler: {base_type}")
-            if issubclass(base_type, Pointer) and not issubclass(self.cs.pointer, Packed):
+            if issubclass(base_type, Pointer) and not issubclass(base_type.ptype or self.cs.pointer, Packed):
                 # Pointer values are taken from the unpacked struct data, which only exists for struct based types
-                raise TypeError(f"Unsupported pointer type for compiler: {self.cs.pointer}")
+                raise TypeError(f"Unsupported pointer type for compiler: {base_type.ptype or self.cs.pointer}")
 
             if prev_was_bits and not field.bits:
                 yield "bit_reader.reset()"
@@ -479,6 +479,6 @@ def _get_read_type(cs: cstruct, type_: type[BaseType]) -> type[BaseType]:
         type_ = type_.type
 
     if issubclass(type_, Pointer):
-        type_ = cs.pointer
+        type_ = type_.ptype or cs.pointer
 
     return cs.resolve(type_)
